@@ -57,7 +57,8 @@ impl Env {
         let _ = std::fs::remove_dir_all(&fail);
         std::fs::create_dir_all(&fail).unwrap();
         for m in &p.failing_modules {
-            let path = fail.join(m);
+            let m = match m.split_once('/') { Some((h, rest)) => format!("{}/{}", h.to_ascii_lowercase(), rest), None => m.to_ascii_lowercase() };
+            let path = fail.join(&m);
             std::fs::create_dir_all(path.parent().unwrap()).unwrap();
             std::fs::write(&path, "10").unwrap();
         }
